@@ -1,6 +1,12 @@
 (* C05 — shape of the generated cases and the two executable verdicts. No proofs. *)
 From VLib Require Import CaseLib.
 From C05 Require Import Model.
+(* gen-* cases (validation of the translator go2coq): required, not imported (GoSem has its own OutOfFuel) *)
+From VLib Require GoSem.
+From C05 Require GenCase.
+Notation GVal := GoSem.GVal.
+Notation GPanic := GoSem.GPanic.
+Notation GFuel := GoSem.GFuel.
 
 Definition idl_eqb : list ID -> list ID -> bool := list_eqb id_eqb.
 Definition kv_eqb (a b : N * N) : bool := (fst a =? fst b)%N && (snd a =? snd b)%N.
@@ -63,7 +69,10 @@ Inductive case :=
           (impl : qpr) (single : option qpr)
 (* Ingestor.Search over shards x replicas; chosen = index of the replica that answered per shard *)
 | CProxy (shards : list (list (list frac))) (chosen : list nat) (p : params) (offset size fpi : nat)
-         (impl : qpr).
+         (impl : qpr)
+(* gen-<func>: the REAL Go function number fn (GenCase.gen_eval) was called on args and returned impl (or
+   panicked); the model side is the definition GENERATED from the Go source by go2coq (Gen.v) *)
+| CGen (fn : N) (args : list (list Z)) (impl : GoSem.gres).
 
 Definition chosen_layouts (shards : list (list (list frac))) (chosen : list nat) : list (list frac) :=
   map (fun sc => nth (snd sc) (fst sc) []) (combine shards chosen).
@@ -73,6 +82,7 @@ Definition layout_ids (fs : list frac) : list ID := map d_id (concat fs).
 (* model output = implementation output *)
 Definition case_agrees (c : case) : bool :=
   match c with
+  | CGen fn args impl => GoSem.gres_eqb (GenCase.gen_eval fn args) impl
   | CMerge dst qs limit interval o impl => qpr_eqb (merge_qprs dst qs limit interval o) impl
   | CEnsured o ids rem impl => Nat.eqb (ensured o ids (map border_frac rem)) impl
   | CPage ids offset size impl impl_size =>
@@ -102,6 +112,7 @@ Definition one_fraction (p : params) (fs : list frac) : qpr := frac_search p (p_
 
 Definition case_spec_ok (c : case) : bool :=
   match c with
+  | CGen _ _ _ => true   (* translator validation: correspondence only *)
   | CMerge dst qs limit interval o impl =>
       let all := q_ids dst ++ concat (map q_ids qs) in
       idl_eqb (q_ids impl) (firstn limit (norm o all))
